@@ -138,6 +138,9 @@ func (n *c13node) writeFlow(rep *vh.Report, r *vh.RNG, fam uint64, from, to int,
 }
 
 func c13stall(rep *vh.Report, seed uint64, idx int, j int) {
+	if aborted() {
+		return
+	}
 	r := vh.Sub(seed, fmt.Sprintf("c13-stall-%d", idx))
 	k := 2 + r.Intn(3)
 	hookReset(r.U64(), true, false)
@@ -171,7 +174,9 @@ func c13stall(rep *vh.Report, seed uint64, idx int, j int) {
 	nItems := 140 + r.Intn(100)
 	if !n.writeFlow(rep, r, fam, 0, nItems, healthy, stalled, false) {
 		n.trs[stalled].UnblockWrites()
-		n.node.Close()
+		if !safeClose(rep, n.node) {
+			return
+		}
 		return
 	}
 	// while the stall lasts: the healthy channels have everything, in order
@@ -238,7 +243,9 @@ func c13stall(rep *vh.Report, seed uint64, idx int, j int) {
 			rep.Violation("what=silent-dead:stall ep=custom", fmt.Sprintf("after the stall was released channel %d no longer emits later writes", ti), nil)
 		}
 	}
-	n.node.Close()
+	if !safeClose(rep, n.node) {
+		return
+	}
 	<-n.cons.done
 	rep.Eval(1)
 	rep.Count("stall_runs", 1)
@@ -247,6 +254,9 @@ func c13stall(rep *vh.Report, seed uint64, idx int, j int) {
 
 // c13fail: a transport write error (once or persistent) or an unencodable item at position pos.
 func c13fail(rep *vh.Report, seed uint64, idx int, class string, pos int) {
+	if aborted() {
+		return
+	}
 	r := vh.Sub(seed, fmt.Sprintf("c13-fail-%d", idx))
 	k := 1 + r.Intn(3)
 	v1 := class == "unencodable:v1-id" || class == "unencodable:v1-frame"
@@ -350,7 +360,9 @@ func c13fail(rep *vh.Report, seed uint64, idx int, class string, pos int) {
 			}
 		}
 	}
-	n.node.Close()
+	if !safeClose(rep, n.node) {
+		return
+	}
 	<-n.cons.done
 	rep.Eval(1)
 	rep.Count("fault_runs_"+class, 1)
@@ -359,6 +371,9 @@ func c13fail(rep *vh.Report, seed uint64, idx int, class string, pos int) {
 
 // c13tcp: the peer of a TCP server channel resets the connection while the node writes to it.
 func c13tcp(rep *vh.Report, seed uint64, idx int) {
+	if aborted() {
+		return
+	}
 	r := vh.Sub(seed, fmt.Sprintf("c13-tcp-%d", idx))
 	hookReset(r.U64(), true, false)
 	port := freeTCPPort()
@@ -373,7 +388,9 @@ func c13tcp(rep *vh.Report, seed uint64, idx int) {
 	cons.start()
 	conn, err := net.Dial("tcp4", fmt.Sprintf("127.0.0.1:%d", port))
 	if err != nil {
-		node.Close()
+		if !safeClose(rep, node) {
+			return
+		}
 		return
 	}
 	cons.waitOpen(2, 2*time.Second)
@@ -410,7 +427,9 @@ func c13tcp(rep *vh.Report, seed uint64, idx int) {
 	if !ok {
 		rep.Violation("what=silent-dead:werr ep=tcp", "a TCP channel whose peer reset the connection is neither closed nor reported", nil)
 	}
-	node.Close()
+	if !safeClose(rep, node) {
+		return
+	}
 	<-cons.done
 	rep.Eval(1)
 	rep.Count("tcp_reset_runs", 1)
